@@ -14,6 +14,14 @@ Three families of cases:
                  several DefaultDirection lines); implementation vs. MODEL, validity criterion as SPEC;
                  refusals (StopIteration / AssertionError) are tallied and must agree with the model;
   * verify step — files on disk through the real CLI code.
+
+Extension (stored files and further entry points of the anchored code):
+  * `parse_pin_header_columns` called directly (padded headers, default / explicit separator);
+  * the command line tool `mokapot.parsers.pin_to_tsv.main()` (sys.argv patched): input file stored with
+    "\n" / "\r\n" / "\r" line ends, `--sep_column` / `--sep_protein` given or left to their defaults,
+    output file absent / empty / holding old content;
+  * the CLI verify step with 1..4 PSM files in one call and the `--verify_pin` option (absent, on, off),
+    files stored with any of the three line ends (also with carriage returns inside: model only).
 """
 from __future__ import annotations
 
@@ -37,7 +45,11 @@ RULE = (
     "line, or padding (documents) / text with >= 2 lines (raw); thorough adds the exhaustive sweeps: all "
     "layouts with <=2 columns on either side x <=3 rows x <=3 proteins x DD x trailing newline x padding, all token "
     "strings of length <= 7 over {tab, newline, a, space, Proteins, DefaultDirection}, and "
-    "convert_line_pin_to_tsv for all (fields <= 10, n_col <= 10, idx < n_col)"
+    "convert_line_pin_to_tsv for all (fields <= 10, n_col <= 10, idx < n_col); extension: (d) every document "
+    "also stored as a file with line ends in {LF, CRLF, CR} and converted by the command line tool "
+    "pin_to_tsv.main() with/without --sep_column/--sep_protein and an absent/empty/non-empty output file, its "
+    "header line given to parse_pin_header_columns; (e) groups of 1..4 files (documents and raw texts) through "
+    "one call of the CLI verify step with --verify_pin absent/on/off"
 )
 
 PADS = [" ", "\t", "\r", "\x0b", "\x0c", " ", " ", "\x1f", "  "]
@@ -101,6 +113,111 @@ def impl_cli_verify(text, tmpdir, k):
         for fn in (path, path + ".tsv"):
             if os.path.exists(fn):
                 os.unlink(fn)
+
+
+def impl_header_cols(header, sep_c, default_sep):
+    from mokapot.parsers.pin_to_tsv import parse_pin_header_columns
+
+    try:
+        if default_sep:
+            n, i = parse_pin_header_columns(header)
+        else:
+            n, i = parse_pin_header_columns(header, sep_column=sep_c)
+    except AssertionError:
+        return "reject-assert"
+    return [int(n), int(i)]
+
+
+def _write_raw(path, raw):
+    with open(path, "w", newline="", encoding="utf-8") as f:
+        f.write(raw)
+
+
+def _read_raw(path):
+    with open(path, "r", newline="", encoding="utf-8") as f:
+        return f.read()
+
+
+def impl_tool_main(raw, opt_c, opt_p, old, tmpdir, k):
+    """the command line tool of pin_to_tsv.py: `main()` with sys.argv = path_in path_out [--sep_column c]
+    [--sep_protein p]; `old` = previous content of the output file (None: the file does not exist)"""
+    import sys
+    import mokapot.parsers.pin_to_tsv as T
+
+    p_in = os.path.join(tmpdir, f"tool{k}.pin")
+    p_out = os.path.join(tmpdir, f"tool{k}.out.tsv")
+    _write_raw(p_in, raw)
+    if old is not None:
+        _write_raw(p_out, old)
+    argv = ["pin_to_tsv", p_in, p_out]
+    if opt_c is not None:
+        argv += ["--sep_column", opt_c]
+    if opt_p is not None:
+        argv += ["--sep_protein", opt_p]
+    saved = sys.argv
+    sys.argv = argv
+    try:
+        T.main()
+        return ("ok", _read_raw(p_out))
+    except StopIteration:
+        return "reject-stop"
+    except AssertionError:
+        return "reject-assert"
+    finally:
+        sys.argv = saved
+        for fn in (p_in, p_out):
+            if os.path.exists(fn):
+                os.unlink(fn)
+
+
+def impl_cli_verify_files(raws, flag, tmpdir, k):
+    """several PSM files through ONE call of the real CLI, stopped right after the verify step;
+    flag: None = option absent, otherwise the value given to --verify_pin (argparse type=bool: "" is off)"""
+    import mokapot.mokapot as M
+
+    def stop(*a, **kw):
+        raise _StopAfterVerify()
+
+    paths = [os.path.join(tmpdir, f"multi{k}_{j}.pin") for j in range(len(raws))]
+    for pth, raw in zip(paths, raws):
+        _write_raw(pth, raw)
+    argv = list(paths) + ["--dest_dir", tmpdir, "--verbosity", "0"]
+    if flag is not None:
+        argv += ["--verify_pin", flag]
+    saved = M.read_pin
+    M.read_pin = stop
+    try:
+        M.main(argv)
+        return "no-stop"
+    except _StopAfterVerify:
+        return ("ok", [_read_raw(pth) for pth in paths])
+    except StopIteration:
+        return "reject-stop"
+    except AssertionError:
+        return "reject-assert"
+    finally:
+        M.read_pin = saved
+        for pth in paths:
+            for fn in (pth, pth + ".tsv"):
+                if os.path.exists(fn):
+                    os.unlink(fn)
+
+
+def _mkdtemp():
+    """scratch directory for the stored files; a memory file system when there is one (thousands of small files
+    are created and removed)"""
+    shm = "/dev/shm"
+    if os.path.isdir(shm) and os.access(shm, os.W_OK | os.X_OK):
+        try:
+            return tempfile.mkdtemp(prefix="c19-", dir=shm)
+        except OSError:
+            pass
+    return tempfile.mkdtemp(prefix="c19-")
+
+
+def py_univnl(raw):
+    """CPython's universal-newline reading of the stored characters (no file involved)"""
+    return io.TextIOWrapper(io.BytesIO(raw.encode("utf-8")), encoding="utf-8", newline=None).read()
 
 
 # ----------------------------------------------------------------------------
@@ -187,7 +304,40 @@ def gen_doc(rng, big=False):
             fix_edges(rng, rows[0][1] + rows[0][2] + rows[0][3], sep_c))]
     doc = dict(hpadL=rand_pad(rng, pad_p), cols=cols, hpadR=rand_pad(rng, pad_p), dd=dd, rows=rows,
                trailing=rng.random() < 0.6, sepC=sep_c, sepP=sep_p, layout=layout)
+    # how the document is stored / given to the file entry points (kept in the document: replayable)
+    doc["term"] = rng.choice(TERMS)
+    doc["tool"] = dict(pass_c=(sep_c != "\t" or rng.random() < 0.5), pass_p=(sep_p != ":" or rng.random() < 0.5),
+                       old=rng.choice([None, None, "", "old\tcontent\nof an earlier run\n"]))
+    doc["hdr_default"] = sep_c == "\t" and rng.random() < 0.5
+    doc["keep_cr"] = rng.random() < 0.25
     return doc
+
+
+TERMS = ["\n", "\n", "\r\n", "\r\n", "\r"]
+TERM_NAME = {"\n": "LF", "\r\n": "CRLF", "\r": "CR"}
+
+
+def doc_lines(d):
+    s = d["sepC"]
+    lines = [d["hpadL"] + s.join(d["cols"]) + d["hpadR"]]
+    if d["dd"] is not None:
+        lines.append(d["dd"])
+    for padl, pre, prots, post, padr in d["rows"]:
+        lines.append(padl + s.join(pre + prots + post) + padr)
+    return lines
+
+
+def no_cr_doc(d):
+    f = lambda x: x.replace("\r", "\x0c")  # another whitespace character, never a column separator here
+    return dict(d, hpadL=f(d["hpadL"]), hpadR=f(d["hpadR"]), cols=[f(c) for c in d["cols"]],
+                dd=None if d["dd"] is None else f(d["dd"]),
+                rows=[[f(r[0]), [f(x) for x in r[1]], [f(x) for x in r[2]], [f(x) for x in r[3]], f(r[4])]
+                      for r in d["rows"]])
+
+
+def render_pin_t(d, term):
+    """the characters stored in a file that holds the document with line terminator `term`"""
+    return term.join(doc_lines(d)) + (term if d["trailing"] else "")
 
 
 def doc_wire(d):
@@ -235,8 +385,9 @@ def doc_nontrivial(d):
     return any(len(r[2]) >= 2 for r in d["rows"]) or d["dd"] is not None or any(r[0] or r[4] for r in d["rows"])
 
 
-def eval_docs(chk, docs, cli=False, tmpdir=None):
-    """documents generated as well-formed: implementation vs spec vs model"""
+def eval_docs(chk, docs, cli=False, tmpdir=None, files=0):
+    """documents generated as well-formed: implementation vs spec vs model
+    (files = n > 0: every n-th document also goes through the file entry points, see eval_files)"""
     lines = []
     for d in docs:
         text = render_pin(d)
@@ -246,6 +397,7 @@ def eval_docs(chk, docs, cli=False, tmpdir=None):
         lines.append(req("validspec", d["sepC"], text))
     resp = common.driver_batch(lines)
     later = []
+    file_items = []
     for k, d in enumerate(docs):
         text = render_pin(d)
         sp = dec(resp[4 * k])
@@ -325,8 +477,12 @@ def eval_docs(chk, docs, cli=False, tmpdir=None):
                 chk.corr_break("validtsv", dict(case=jd, input=text, impl=v_in, model=m_valid))
         if cli and d["sepC"] == "\t" and d["sepP"] == ":" and "\r" not in text:
             later.append((d, text, exp, v_in))
+        if tmpdir is not None and files and k % files == 0:
+            file_items.append(dict(doc=d))
     if later:
         eval_cli(chk, later, tmpdir)
+    if file_items:
+        eval_files(chk, file_items, tmpdir, groups=cli)
 
 
 def eval_cli(chk, items, tmpdir):
@@ -343,6 +499,202 @@ def eval_cli(chk, items, tmpdir):
                                                   clause="file after the verify step is not (input if valid else conversion)"))
         elif got != model:
             chk.corr_break("verifystep", dict(case=jsonable(d), input=text, impl=got, model=model))
+
+
+# ----------------------------------------------------------------------------
+# extension: the header helper, the command line tool, several stored files through the CLI
+# ----------------------------------------------------------------------------
+def _model_text(r):
+    r = r.strip()
+    return r if r.startswith("reject") else ("ok", a_str(r))
+
+
+def eval_files(chk, items, tmpdir, groups=False):
+    """well-formed documents as stored files: parse_pin_header_columns, pin_to_tsv.main(), and (groups=True)
+    groups of files through one CLI call.  items: dict(doc, exp, first_ok, sep_ok)"""
+    lines = []
+    for it in items:
+        d = it["doc"]
+        if not d.get("keep_cr"):
+            # the stored variant of the document: carriage returns inside lines become form feeds (both are
+            # whitespace for str.strip, so the structure of the document is the same)
+            d = it["doc"] = no_cr_doc(d)
+        term = d.get("term", "\n")
+        tool = d.get("tool") or dict(pass_c=True, pass_p=True, old=None)
+        it["term"], it["tool"] = term, tool
+        it["raw"] = render_pin_t(d, term)
+        it["header"] = doc_lines(d)[0]
+        it["opt_c"] = d["sepC"] if (tool["pass_c"] or d["sepC"] != "\t") else None
+        it["opt_p"] = d["sepP"] if (tool["pass_p"] or d["sepP"] != ":") else None
+        it["hdr_default"] = bool(d.get("hdr_default")) and d["sepC"] == "\t"
+        lines.append(req("spec-C19-file", d["sepC"], d["sepP"], term, doc_wire(d)))
+        lines.append(req("headercols", d["sepC"], it["header"]))
+        lines.append(req("toolmain", None if it["opt_c"] is None else [it["opt_c"]],
+                         None if it["opt_p"] is None else [it["opt_p"]], it["raw"], tool["old"] or ""))
+    resp = common.driver_batch(lines)
+    eligible = []
+    for k, it in enumerate(items):
+        d = it["doc"]
+        jd = jsonable(d)
+        sp = dec(resp[3 * k])
+        wf, nocr, term_ok = a_bool(sp[0]), a_bool(sp[1]), a_bool(sp[2])
+        lean_raw, lean_pin = a_str(sp[3]), a_str(sp[4])
+        it["first_ok"], it["exp"] = a_bool(sp[5]), expected_text(d)
+        text = render_pin(d)
+        if lean_raw != it["raw"] or lean_pin != text or not wf or not term_ok:
+            raise RuntimeError(f"harness/driver rendering mismatch (stored file): {it['raw']!r} vs {lean_raw!r}")
+        if a_str(sp[6]) != it["exp"]:
+            raise RuntimeError(f"spec restatement mismatch (python vs Lean): {it['exp']!r} vs {a_str(sp[6])!r}")
+        if nocr != ("\r" not in text):
+            raise RuntimeError(f"noCR restatement mismatch on {text!r}")
+        it["nocr"] = nocr
+        # -- text-mode reading: model vs CPython, and the theorem's instance
+        m_read = a_str(sp[7])
+        py_read = py_univnl(it["raw"])
+        chk.count("file-terminator", TERM_NAME[it["term"]] + ("" if nocr else "+inner-CR"))
+        if m_read != py_read:
+            chk.corr_break("univnl", dict(kind="univnl", raw=it["raw"], impl=py_read, model=m_read))
+        elif nocr and py_read != text:
+            raise RuntimeError(f"universal-newline restatement mismatch: {it['raw']!r} read as {py_read!r}")
+        # -- parse_pin_header_columns
+        m_hdr = resp[3 * k + 1].strip()
+        m_hdr = m_hdr if m_hdr.startswith("reject") else [int(x) for x in dec(m_hdr)]
+        got_hdr = impl_header_cols(it["header"], d["sepC"], it["hdr_default"])
+        want_hdr = [len(d["cols"]), d["cols"].index("Proteins")]
+        chk.case(None, ("header", len(d["cols"]), want_hdr[1], d["cols"].count("Proteins"), bool(d["hpadL"]),
+                        bool(d["hpadR"]), d["sepC"], it["hdr_default"]))
+        chk.count("header-cols", "default-sep" if it["hdr_default"] else "explicit-sep")
+        hinfo = dict(kind="header", header=it["header"], sepC=d["sepC"], default_sep=it["hdr_default"])
+        if got_hdr != want_hdr:
+            chk.spec_violation("header-cols", dict(hinfo, impl=got_hdr, expected=want_hdr,
+                                                   clause="parse_pin_header_columns != (number of header columns, "
+                                                          "first position of Proteins)"))
+        elif got_hdr != m_hdr:
+            chk.corr_break("headercols", dict(hinfo, impl=got_hdr, model=m_hdr))
+        # -- the command line tool
+        m_tool = _model_text(resp[3 * k + 2])
+        got = impl_tool_main(it["raw"], it["opt_c"], it["opt_p"], it["tool"]["old"], tmpdir, k)
+        chk.case(None, ("tool",) + doc_key(d) + (it["term"], it["opt_c"] is None, it["opt_p"] is None,
+                                                 it["tool"]["old"] is None))
+        chk.count("tool-main", "spec" if nocr else "model-only(inner CR)")
+        chk.count("tool-opts", ("c" if it["opt_c"] is not None else "-") + ("p" if it["opt_p"] is not None else "-"))
+        chk.count("tool-old-output", "absent" if it["tool"]["old"] is None else ("empty" if not it["tool"]["old"] else "non-empty"))
+        tinfo = dict(kind="tool", case=jd, raw=it["raw"], opt_c=it["opt_c"], opt_p=it["opt_p"], old=it["tool"]["old"])
+        if nocr and got != ("ok", it["exp"]):
+            chk.spec_violation("tool-main", dict(tinfo, impl=got, expected=it["exp"],
+                                                 clause="output file of pin_to_tsv.main() is not the rectangular table "
+                                                        "of the stored document"))
+        elif got != m_tool:
+            chk.corr_break("toolmain", dict(tinfo, impl=got, model=m_tool))
+        if d["sepC"] == "\t" and d["sepP"] == ":":
+            eligible.append(it)
+    if groups and eligible:
+        grp, i = [], 0
+        while i < len(eligible):
+            n = chk.rng.choice([1, 2, 2, 3, 4])
+            flag = chk.rng.choice([None, None, None, "1", "False", "", ""])
+            part = eligible[i:i + n]
+            i += n
+            known = all(it["nocr"] and it["first_ok"] for it in part)
+            expected = None
+            if known:
+                expected = [it["raw"] if valid_criterion(render_pin(it["doc"]), "\t") is True else it["exp"] for it in part]
+            grp.append(dict(kind="files", files=[it["raw"] for it in part], flag=flag, expected=expected,
+                            family="docs"))
+        eval_cli_files(chk, grp, tmpdir)
+
+
+def eval_cli_files(chk, groups, tmpdir):
+    """groups of stored files through ONE call of the real CLI verify step vs spec vs model"""
+    resp = common.driver_batch([req("verifyfiles", g["flag"] != "", list(g["files"])) for g in groups])
+    for k, (g, r) in enumerate(zip(groups, resp)):
+        r = r.strip()
+        model = r if r.startswith("reject") else ("ok", deep(a_str, dec(r)))
+        if isinstance(model, tuple) and not isinstance(model[1], list):
+            model = ("ok", [model[1]])
+        on = g["flag"] != ""
+        got = impl_cli_verify_files(g["files"], g["flag"], tmpdir, k)
+        terms = tuple(sorted({("CRLF" if "\r\n" in f else "CR" if "\r" in f else "LF") for f in g["files"]}))
+        chk.case(None, ("cli-files", g.get("family"), tuple(g["files"]), g["flag"]))
+        chk.count("cli-files", f"{g.get('family')}:{len(g['files'])}")
+        chk.count("cli-verify-flag", {None: "absent", "": "off"}.get(g["flag"], "on(" + str(g["flag"]) + ")"))
+        chk.count("cli-files-line-ends", "+".join(terms))
+        info = dict(kind="files", files=list(g["files"]), flag=g["flag"], expected=g.get("expected"),
+                    family=g.get("family"))
+        if isinstance(got, str):
+            chk.reject("cli-verify-files:" + got)
+            if not on:
+                chk.spec_violation("cli-verify-off", dict(info, impl=got, expected=list(g["files"]),
+                                                          clause="--verify_pin off: the step must not touch (or read) the files"))
+            elif g.get("expected") is not None:
+                chk.spec_violation("cli-verify-files", dict(info, impl=got,
+                                                            clause="verify step raised on well-formed PIN files"))
+            elif got != model:
+                chk.corr_break("verifyfiles", dict(info, impl=got, model=model))
+            continue
+        if not on:
+            if got[1] != list(g["files"]):
+                chk.spec_violation("cli-verify-off", dict(info, impl=got[1], expected=list(g["files"]),
+                                                          clause="--verify_pin off: a file was changed"))
+                continue
+        elif g.get("expected") is not None and got[1] != g["expected"]:
+            bad = [j for j, (a, b) in enumerate(zip(got[1], g["expected"])) if a != b]
+            chk.spec_violation("cli-verify-files", dict(info, impl=got[1], differing_files=bad,
+                                                        clause="after the verify step some file is not (itself if valid "
+                                                               "else its conversion)"))
+            continue
+        if got != model:
+            chk.corr_break("verifyfiles", dict(info, impl=got, model=model))
+
+
+def eval_raw_files(chk, cases, tmpdir):
+    """arbitrary texts as stored files: header helper, command line tool, CLI groups — implementation vs MODEL
+    (refusals must agree); spec only where it speaks about every input (--verify_pin off)"""
+    lines = []
+    items = []
+    for t, sc, sp in cases:
+        first = t.split("\n")[0] + ("\n" if "\n" in t else "")
+        opt_c = sc if (sc != "\t" or chk.rng.random() < 0.5) else None
+        opt_p = sp if (sp != ":" or chk.rng.random() < 0.5) else None
+        old = chk.rng.choice([None, "", "x\n"])
+        items.append((t, sc, sp, first, opt_c, opt_p, old))
+        lines.append(req("headercols", sc, first))
+        lines.append(req("toolmain", None if opt_c is None else [opt_c], None if opt_p is None else [opt_p], t, old or ""))
+        lines.append(req("univnl", t))
+    resp = common.driver_batch(lines)
+    tabs = []
+    for k, (t, sc, sp, first, opt_c, opt_p, old) in enumerate(items):
+        m_hdr = resp[3 * k].strip()
+        m_hdr = m_hdr if m_hdr.startswith("reject") else [int(x) for x in dec(m_hdr)]
+        got_hdr = impl_header_cols(first, sc, False)
+        chk.case(None, ("raw-header", first, sc))
+        chk.count("raw-header-cols", "ok" if isinstance(got_hdr, list) else got_hdr)
+        if isinstance(got_hdr, str):
+            chk.reject("parse_pin_header_columns:" + got_hdr)
+        if got_hdr != m_hdr:
+            chk.corr_break("headercols", dict(kind="header", header=first, sepC=sc, default_sep=False,
+                                              impl=got_hdr, model=m_hdr))
+        m_read = a_str(resp[3 * k + 2].strip())
+        if m_read != py_univnl(t):
+            chk.corr_break("univnl", dict(kind="univnl", raw=t, impl=py_univnl(t), model=m_read))
+        m_tool = _model_text(resp[3 * k + 1])
+        got = impl_tool_main(t, opt_c, opt_p, old, tmpdir, k)
+        chk.case(None, ("raw-tool", t, opt_c, opt_p, old))
+        chk.count("raw-tool-main", got if isinstance(got, str) else "ok")
+        if isinstance(got, str):
+            chk.reject("pin_to_tsv.main:" + got)
+        if got != m_tool:
+            chk.corr_break("toolmain", dict(kind="tool", raw=t, opt_c=opt_c, opt_p=opt_p, old=old, impl=got, model=m_tool))
+        if sc == "\t":
+            tabs.append(t)
+    grp, i = [], 0
+    while i < len(tabs):
+        n = chk.rng.choice([1, 2, 3])
+        grp.append(dict(kind="files", files=tabs[i:i + n], flag=chk.rng.choice([None, None, "x", ""]), expected=None,
+                        family="raw"))
+        i += n
+    if grp:
+        eval_cli_files(chk, grp, tmpdir)
 
 
 # ----------------------------------------------------------------------------
@@ -409,7 +761,7 @@ def eval_raw(chk, cases, family="raw"):
 # ----------------------------------------------------------------------------
 # exhaustive small-scope sweeps
 # ----------------------------------------------------------------------------
-def sweep_docs(chk, max_side, max_rows, max_prot, tmpdir):
+def sweep_docs(chk, max_side, max_rows, max_prot, tmpdir, files=0):
     docs = []
     for n_pre in range(max_side + 1):
         for n_post in range(max_side + 1):
@@ -429,7 +781,7 @@ def sweep_docs(chk, max_side, max_rows, max_prot, tmpdir):
                                 docs.append(dict(hpadL="", cols=cols, hpadR=" " if pad else "", dd=dd, rows=rows,
                                                  trailing=trailing, sepC="\t", sepP=":", layout="sweep"))
     for i in range(0, len(docs), 4000):
-        eval_docs(chk, docs[i:i + 4000], cli=(i == 0), tmpdir=tmpdir)
+        eval_docs(chk, docs[i:i + 4000], cli=(i == 0), tmpdir=tmpdir, files=files)
     return len(docs)
 
 
@@ -502,6 +854,48 @@ def minimise(chk):
     if not chk.spec_violations:
         return
     sig, info = chk.spec_violations[0]
+    if info.get("kind") == "files":
+        # drop files while the same violation stays
+        def run_files(idx):
+            sub = common.Check(chk.prop, chk.tier, chk.seed)
+            exp = None if info.get("expected") is None else [info["expected"][j] for j in idx]
+            tmp = _mkdtemp()
+            try:
+                eval_cli_files(sub, [dict(info, files=[info["files"][j] for j in idx], expected=exp)], tmp)
+            except Exception:
+                return []
+            finally:
+                shutil.rmtree(tmp, ignore_errors=True)
+            return [x for x in sub.spec_violations if x[0] == sig]
+
+        idx = common.shrink_list(list(range(len(info["files"]))), lambda ix: bool(run_files(ix)), min_len=1)
+        if len(idx) < len(info["files"]):
+            found = run_files(idx)
+            if found:
+                chk.spec_violations[0] = (sig, dict(found[0][1], shrunk_from_files=len(info["files"])))
+        return
+    if info.get("kind") in ("tool", "header", "univnl"):
+        if info.get("kind") != "tool" or "case" not in info:
+            return
+        d0 = info["case"]
+
+        def fails_tool(d):
+            sub = common.Check(chk.prop, chk.tier, chk.seed)
+            tmp = _mkdtemp()
+            try:
+                eval_files(sub, [dict(doc=dict(d, keep_cr=True))], tmp)
+            except Exception:
+                return False
+            finally:
+                shutil.rmtree(tmp, ignore_errors=True)
+            return [x for x in sub.spec_violations if x[0] == sig]
+
+        min_rows = 0 if d0["dd"] is not None else 1
+        rows = common.shrink_list(d0["rows"], lambda rs: bool(fails_tool(dict(d0, rows=rs))), min_len=min_rows)
+        found = fails_tool(dict(d0, rows=rows))
+        if found:
+            chk.spec_violations[0] = (sig, dict(found[0][1], shrunk_from_rows=len(d0["rows"])))
+        return
     if "case" not in info or "rows" not in info["case"]:
         return
     d0 = info["case"]
@@ -534,10 +928,12 @@ def minimise(chk):
 def search(chk):
     """failing-input search used when a proof or the correspondence is broken"""
     rng = chk.rng
-    tmpdir = tempfile.mkdtemp(prefix="c19-")
+    tmpdir = _mkdtemp()
     try:
-        eval_docs(chk, [gen_doc(rng, big=(i % 4 == 0)) for i in range(4000)], cli=True, tmpdir=tmpdir)
-        eval_raw(chk, [gen_raw(rng) for _ in range(20000)])
+        eval_docs(chk, [gen_doc(rng, big=(i % 4 == 0)) for i in range(4000)], cli=True, tmpdir=tmpdir, files=1)
+        raws = [gen_raw(rng) for _ in range(20000)]
+        eval_raw(chk, raws)
+        eval_raw_files(chk, raws[:3000], tmpdir)
         if not chk.spec_violations:
             sweep_docs(chk, 2, 2, 3, tmpdir)
             sweep_raw(chk, 6)
@@ -553,22 +949,23 @@ def main(chk, args):
         chk.finish(build, RULE)
     rng = chk.rng
     quick = chk.tier == "quick"
-    tmpdir = tempfile.mkdtemp(prefix="c19-")
+    tmpdir = _mkdtemp()
     try:
         check_isspace(chk)
         docs = corpus_docs()
         docs += [gen_doc(rng, big=(i % 10 == 0)) for i in range(1500 if quick else 60000)]
         for i in range(0, len(docs), 2000):
-            eval_docs(chk, docs[i:i + 2000], cli=(i < 4000), tmpdir=tmpdir)
+            eval_docs(chk, docs[i:i + 2000], cli=(i < 4000), tmpdir=tmpdir, files=(3 if quick else 1) if i < 20000 else 0)
         raws = [gen_raw(rng) for _ in range(6000 if quick else 200000)]
         for i in range(0, len(raws), 20000):
             eval_raw(chk, raws[i:i + 20000])
+        eval_raw_files(chk, raws[:200 if quick else 20000], tmpdir)
         if quick:
             n1 = sweep_docs(chk, 1, 2, 2, tmpdir)
             n2 = sweep_raw(chk, 4)
             n3 = sweep_convert_line(chk, 6)
         else:
-            n1 = sweep_docs(chk, 2, 3, 3, tmpdir)
+            n1 = sweep_docs(chk, 2, 3, 3, tmpdir, files=7)
             n2 = sweep_raw(chk, 7)
             n3 = sweep_convert_line(chk, 10)
         chk.extra["exhaustive_sweep"] = (
@@ -588,6 +985,10 @@ def main(chk, args):
         "fields, header-only files, two DefaultDirection-like lines) only implementation = model is checked",
         "CLI verify step: files are read in text mode (universal newlines), so cases with '\\r' are excluded there; "
         "a stale <pin>.tsv (append mode, finding D7 of C09) is not part of this property",
+        "extension: text-mode reading is modelled (univNl: CRLF and lone CR read as LF) and compared with CPython's "
+        "TextIOWrapper(newline=None) and with real files; documents with a carriage return INSIDE a line are outside "
+        "the file theorems (model correspondence only); files are written with os.linesep == '\\n' (POSIX); the PSM "
+        "files of one CLI call have distinct paths; what is left on disk when the step raises is not compared",
     ]
     chk.finish(build, RULE, search=search, lc=lc,
                trusted_extra=["CPython str/list/StringIO primitives", "argparse/logging part of mokapot.mokapot.main "
@@ -597,10 +998,32 @@ def main(chk, args):
 def replay(chk, path):
     info = json.loads(open(path).read())
     common.build_and_audit("C19")
-    if "case" in info and isinstance(info["case"], dict) and "rows" in info["case"]:
-        tmpdir = tempfile.mkdtemp(prefix="c19-")
+    if info.get("kind") in ("files", "tool", "header", "univnl"):
+        tmpdir = _mkdtemp()
         try:
-            eval_docs(chk, [info["case"]], cli=True, tmpdir=tmpdir)
+            if info["kind"] == "files":
+                eval_cli_files(chk, [info], tmpdir)
+            elif info["kind"] == "tool" and "case" in info:
+                d = info["case"]
+                eval_files(chk, [dict(doc=dict(d, keep_cr=True))], tmpdir)
+            elif info["kind"] == "tool":
+                got = impl_tool_main(info["raw"], info["opt_c"], info["opt_p"], info["old"], tmpdir, 0)
+                print("impl:", got, "model:", info.get("model"))
+                return 1 if got != tuple(info["model"]) and got != info.get("model") else 0
+            elif info["kind"] == "header":
+                got = impl_header_cols(info["header"], info["sepC"], info["default_sep"])
+                want = info.get("expected", info.get("model"))
+                print("impl:", got, "expected:", want)
+                return 1 if got != want else 0
+            else:
+                print("impl:", repr(py_univnl(info["raw"])), "model:", repr(info.get("model")))
+                return 1 if py_univnl(info["raw"]) != info.get("model") else 0
+        finally:
+            shutil.rmtree(tmpdir, ignore_errors=True)
+    elif "case" in info and isinstance(info["case"], dict) and "rows" in info["case"]:
+        tmpdir = _mkdtemp()
+        try:
+            eval_docs(chk, [info["case"]], cli=True, tmpdir=tmpdir, files=1)
         finally:
             shutil.rmtree(tmpdir, ignore_errors=True)
     elif "input" in info and "sepC" in info:
